@@ -14,7 +14,7 @@ from props.sched import World
 
 MANIFEST = dict(
     category="proof",
-    technique="the real run_feedforward_filter with its while loop cut at the AST level (invariant, lexicographic variant, exit postcondition) executed on z3 terms with contract stubs for every callee and opaque numeric payloads; verification conditions discharged by z3 over all table lengths, all real time stamps and every positive time_step; counter-models minimised and replayed on the real filter; increments batches must be selected by label, one per propagating iteration; Measurement objects are frame-tracked; corrections at one stamp are threaded sequentially",
+    technique="the real run_feedforward_filter with its while loop cut at the AST level (invariant, lexicographic variant, exit postcondition) executed on z3 terms with contract stubs for every callee and opaque numeric payloads; verification conditions discharged by z3 over all table lengths, all real time stamps and every positive time_step; counter-models minimised and replayed on the real filter; increments batches must be selected by label, one per propagating iteration; Measurement objects are frame-tracked; corrections at one stamp are threaded sequentially; Bounded stand-ins shared by all properties (labelled bounded, never counted as proved): the argument-form battery of the modules under contract (batches of 1 and 1200 rows, integer-typed values, labels / columns in other orders, extra labels); where the frame analysis finds state that outlives a call (a cache, a memo) the frame obligation becomes a dynamic purity contract against pristine process states; names the proofs replace by scipy contracts are checked to be bound to the library's functions (else a differential test).",
     text="For ALL equally indexed trajectory pairs (any length N>=2, any strictly increasing stamps), all measurement time sets of up to two sensors with arbitrary real stamps, EVERY positive time_step (below, equal to or above the sampling interval), with and without increments and measurements in {None, [], lists}: the unequal-index guard raises ValueError; the prologue's stub preconditions hold; the loop invariant (0<=index<=N-1, 0<=mi<=K, no stamp overdue: times[index] <= M[mi], result times strictly increasing input times starting with the first) holds initially and is preserved on every path of the real body; the lexicographic measure (N-1-index, K-mi) decreases on every path (termination for every positive time_step); each step advances by at most max(time_step, local sampling gap); each processed stamp is evaluated by every sensor exactly once at its own time with exactly one innovation row per sensor holding it; the increments batch is the label slice (time, next_time]; all divisors (interpolation weight, time_delta) are non-zero; at exit index = N-1 and every stamp before the end has been used.",
     note="A1, A6; contracts assumed for callees (compute_matrices None iff absent, numpy searchsorted/unique/sort/mask/append, pandas label slice); stamps strictly increasing; induction over iterations is a paper argument over the per-iteration obligations; 'finite' beyond division by zero only exercised by the run-time stand-in.",
 )
